@@ -100,6 +100,28 @@ def grouped_path_case(draw):
     return c
 
 
+@st.composite
+def deep_path_case(draw):
+    """a fine path (multiplier 1.01-1.03, hundreds of epochs per step) over a one-hot group with an unused category: the
+    weights of the all-zero column are only ever rescaled and end up hundreds of orders of magnitude below the others"""
+    cls = draw(st.sampled_from(["SparseLinearMMD", "SparseLinearModel", "SparseLinearMI"]))
+    s = draw(E.est_spec(classes=[cls], n_max=60, d_max=7, iter_max=1, k_max=3, n_min=30, d_min=6, gem_names=["mmd_ova", "mi", "kl_ovo"],
+                        allow_instance=False, kernel_forms=("named",)))
+    s.update({"n": draw(st.sampled_from([30, 60])), "n_clusters": 3, "learning_rate": 1.0, "solver": "sgd", "alpha": 0.2,
+              "max_iter": draw(st.sampled_from([200, 120])), "groups": [[0, 1, 2, 3]], "batch_size": None})
+    s.pop("gcont", None)
+    s.pop("ntype", None)
+    s.pop("verbose", None)
+    if "aff" in s:
+        s["aff"] = {"fam": "kernel", "form": "named", "name": "linear", "params": {}, "aseed": 0}
+    if "dynamic" in s:
+        s["dynamic"] = False
+    s["x"] = {"d": s["d"], "xseed": draw(gens.seeds), "xkind": "onehot_unused"}
+    pa = {"alpha_multiplier": draw(st.sampled_from([1.01, 1.02, 1.03])), "min_features": 3, "keep_threshold": 0.9,
+          "restore_best_weights": draw(st.booleans()), "early_stopping_factor": 0.99, "max_patience": 10}
+    return {"spec": s, "path": pa, "nan_after": None, "score_shift": None}
+
+
 def poison(est, limit):
     """From the `limit`-th score-only evaluation made while a penalty is in force, the objective of `est` reports NaN (what
     an overflowing kernel or a user-written GEMINI does); gradients and affinities are untouched."""
@@ -286,6 +308,7 @@ def oracle_defaults(case):
 
 
 def subs():
-    return [Sub("contract_grouped", grouped_path_case(), oracle_path, 300, 6000, "the same contract with multi-feature groups and long paths"),
+    return [Sub("deep_path", deep_path_case(), oracle_path, 1, 40, "fine paths of hundreds of steps x hundreds of epochs (weights shrink through 300 orders of magnitude)", shards=False),
+            Sub("contract_grouped", grouped_path_case(), oracle_path, 300, 6000, "the same contract with multi-feature groups and long paths"),
             Sub("contract", path_case(), oracle_path, 700, 12000, "termination, histories, best weights, restoration"),
             Sub("defaults", path_case(defaults=True), oracle_defaults, 60, 800, "out-of-range arguments == documented defaults")]
